@@ -1440,17 +1440,12 @@ func (self *Fork) expandForkPartFromSource(must bool,
 func (self *Fork) expandForkPartFromExp(must bool, i int, part *ForkSourcePart,
 	split *syntax.SplitExp, exp syntax.Exp, result []ForkId) ([]ForkId, error) {
 	if exp == nil {
-		part.Id = arrayIndexFork(0)
-		self.updateId(self.forkId)
-		self.writeDisable()
-		return nil, nil
+		// The source is disabled, so its value is null.
+		return self.expandForkFromObj(i, part, split, nil, split, result)
 	}
 	switch exp := exp.(type) {
 	case *syntax.NullExp:
-		part.Id = emptyFork{}
-		self.updateId(self.forkId)
-		self.writeDisable()
-		return nil, nil
+		return self.expandForkFromObj(i, part, split, nil, split, result)
 	case *syntax.RefExp:
 		return self.expandForkFromRef(must, i, part, split, exp, result)
 	case *syntax.MergeExp:
